@@ -24,7 +24,7 @@ MODEL = 'tags_tlv'
 COQ = {
     'C01': dict(gen=['TlvK'], targets=['Proofs/T2TWrite.vo', 'Proofs/T2TRetry.vo', 'Proofs/T1T.vo', 'Proofs/T1TRetry.vo', 'Bridge/TlvK.vo'], props=['C01_tlv']),
     'C02': dict(gen=[], targets=['Proofs/T2TCut.vo', 'Proofs/T2TRetry.vo', 'Proofs/T1T.vo', 'Proofs/T1TRetry.vo'], props=['C02_tlv']),
-    'C03': dict(gen=[], targets=['Proofs/T2TFrame.vo', 'Proofs/T1T.vo'], props=['C03_tlv']),
+    'C03': dict(gen=['TlvFmtK'], targets=['Proofs/T2TFrame.vo', 'Proofs/T1T.vo', 'Bridge/TlvFmtK.vo'], props=['C03_tlv']),
 }
 TRUSTED = ['Coq 8.16.1 kernel (vm_compute only in the non-vacuity examples and refutation witnesses)',
            'translate/kspec_tags_tlv.py + py2coq.py (kernel translator for get_lock_byte_range / get_rsvd_byte_range / get_capacity of tt1.py, tt2.py)',
